@@ -31,6 +31,8 @@ fn regret_bits(rng: &mut Rng, style: u64) -> f32 {
         4 => if rng.chance(0.5) { 1e-30 } else { f32::from_bits(rng.below(100) as u32 + 1) }, // tiny / denormal
         5 => 7.25,                                  // all equal
         6 => -3e5,                                  // at the clamp
+        9 => (if rng.chance(0.7) { 1.0 } else { -1.0 }) * (1e37 + (rng.unit() as f32) * 3e38).min(f32::MAX), // near the clamp f32::MAX
+        10 => f32::MAX,                             // every action at the clamp
         _ => (rng.unit() as f32) * 1e4,
     }
 }
@@ -85,7 +87,7 @@ pub fn run(o: &Opts, _deck: &str) -> String {
         let (parity, infos) = &infosets[k % 2];
         let info = &infos[rng.below(infos.len() as u64) as usize];
         let nact = info.node().outgoing().len();
-        let style = rng.below(9);
+        let style = if k < 40 { 10 } else { rng.below(10) };
         let regrets: Vec<f32> = (0..nact).map(|_| { let st = if style == 8 { rng.below(8) } else { style }; regret_bits(&mut rng, st) }).collect();
         let t = if *parity == 0 { epochs_even[rng.below(epochs_even.len() as u64) as usize] } else { epochs_odd[rng.below(epochs_odd.len() as u64) as usize] };
         let p = profile_for(info, &regrets, t);
@@ -161,19 +163,28 @@ pub fn run_c20(o: &Opts, _deck: &str) -> String {
         let rows: Vec<(u64, u64, u64, u64, f32, f32)> = edges.iter().zip(weights.iter()).map(|(e, w)| (u64::from(b.0), u64::from(b.1), u64::from(b.2), u64::from(*e), 0.0, *w)).collect();
         let mut p = Profile::verif_from_rows(&rows);
         let mut counts = vec![0u32; edges.len()];
+        // consecutive epochs must be independent draws: agreements of (2t, 2t+1) and of (2t+1, 2t+2)
+        let mut prev: Option<usize> = None;
+        let mut agree = [0u32; 2];
         for ep in 0..ne {
             p.verif_set_epochs(ep);
             let br = enc.branches(node);
             let chosen = p.explore_one(br, node);
             let e = *chosen[0].edge();
-            counts[edges.iter().position(|x| *x == e).unwrap()] += 1;
+            let ix = edges.iter().position(|x| *x == e).unwrap();
+            counts[ix] += 1;
+            if let Some(q) = prev {
+                if q == ix { agree[(ep + 1) % 2] += 1; } // ep odd: the pair (ep-1, ep) starts at an even epoch -> slot 0
+            }
+            prev = Some(ix);
             calls += 1;
         }
         out.line(&format!(
-            "sampdist {} {} | {}",
+            "sampdist {} {} | {} {} {} {}",
             bkey(b),
             weights.iter().map(|w| w.to_bits().to_string()).collect::<Vec<_>>().join(","),
-            counts.iter().map(|c| c.to_string()).collect::<Vec<_>>().join(",")
+            counts.iter().map(|c| c.to_string()).collect::<Vec<_>>().join(","),
+            agree[0], agree[1], ne / 2
         ));
     }
     let _ = Turn::Terminal;
